@@ -514,6 +514,33 @@ func TestCheck(t *testing.T) {
 			}
 		}
 	}
+	// exponents {0, 1, e} where the two damaged slices' constants agree at exponent e, the block e stored in a file whose name
+	// sorts between the files of blocks 0 and 1: the two lowest exponents (0 and 1) must be the ones used
+	{
+		idx := 0
+		ci := gf16.PAR2Constants(40)
+		for _, e := range []int{3855, 4369, 1285, 771, 255, 257} {
+			found := 0
+			for a := 0; a < len(ci) && found < 2; a++ {
+				for b := a + 1; b < len(ci) && found < 2; b++ {
+					if gf16.FPow(ci[a], uint64(e)) != gf16.FPow(ci[b], uint64(e)) {
+						continue
+					}
+					found++
+					idx++
+					if !cfg.Mine(3000 + idx) {
+						continue
+					}
+					rec.Class("lowest-exponents-not-first-in-name-order")
+					files := []scen.FileSpec{{Name: "one.bin", Size: 4 * (b + 3), Kind: "random", Seed: uint64(170 + idx)}}
+					do(Case{Files: files, Slice: 4, Base: "ord", Vols: []Vol{{Suffix: "a", Exps: []int{0}}, {Suffix: "b", Exps: []int{e}}, {Suffix: "c", Exps: []int{1}}}, Scramble: uint64(idx),
+						Damage: []scen.Damage{{Op: "flip", File: 0, Off: 4 * a}, {Op: "flip", File: 0, Off: 4*b + 1}}, G: 1 + idx%2})
+					do(Case{Files: files, Slice: 4, Base: "ord", Vols: []Vol{{Suffix: "m", Exps: []int{e, 0}}, {Suffix: "z", Exps: []int{1}}}, Scramble: 0,
+						Damage: []scen.Damage{{Op: "flip", File: 0, Off: 4 * a}, {Op: "flip", File: 0, Off: 4*b + 1}}, G: 1})
+				}
+			}
+		}
+	}
 	// many recovery files: the directory holds exactly 256 (and 255, 257, 512) entries at the time of the volume search
 	for vi, nv := range []int{253, 254, 255, 510} {
 		if !cfg.Mine(1000 + vi) || (nv > 300 && !cfg.Thorough()) {
